@@ -130,7 +130,10 @@ func (g *Gen) NsCase(n NsNames, db, coll, verb, carrier string, depth int) *Case
 		}
 	}
 	cmd.Set("lsid", g.lsid())
-	cmd.Set("$db", StrN(db).With(&Tag{Role: NsDB}))
+	if !g.chance(0.15) {
+		cmd.Set("$db", StrN(db).With(&Tag{Role: NsDB}))
+	} // else: a command document logged without $db (legacy OP_QUERY lines, "protocol":"op_query"); every
+	// other name in it is still a name
 	if verb == "getMore" {
 		carrier = "command"
 	}
